@@ -132,7 +132,7 @@ def gen_cached(ctx, module, consts, emit, sim=None, depth=None, name="gen"):
 def generate(ctx):
     """Exhaustive enumeration up to a bound plus seeded long walks (TLC -simulate), for both generators."""
     rng = random.Random(ctx.seed)
-    L, Lr = (7, 5) if ctx.thorough else (5, 4)
+    L, Lr = (6, 5) if ctx.thorough else (5, 4)
     plans = [("GenTracer", {"L": L, "MaxClose": 2, "MaxAfter": 2}, "Emit", None, None, "gen-file"),
              ("GenTracer", {"L": 12, "MaxClose": 2, "MaxAfter": 3}, "EmitLong", 4000 if ctx.thorough else 400, 14, "gen-file-sim"),
              # remote tracer: a run costs ~40 ms of wall per scenario, so the enumeration is sampled by the seed
@@ -497,7 +497,7 @@ def run(ctx):
                 "exhaustive": False,
                 "exhaustive_note": "file scenarios: every operation sequence up to length %d (%d) plus seeded walks of length 12; remote: a seeded "
                                    "sample of %d of the %d enumerated sequences plus the core list and seeded long walks" %
-                                   (7 if ctx.thorough else 5, file_exh, len(rem_scns), rem_total),
+                                   (6 if ctx.thorough else 5, file_exh, len(rem_scns), rem_total),
                 "file_coverage": dict(cov), "remote_coverage": dict(rcov), "mc": mcinfo}
     return vlib.finish(ctx, LEVEL, coverage, [
         "sync.Mutex, channels of capacity 1 and close() behave as modelled (a closed channel yields its buffered token before ok=false)",
